@@ -31,53 +31,6 @@ def load_lark(grammar_text):
     return _LARK_CACHE[grammar_text]
 
 
-class Instance(Model):
-    """Model instance of a repository class: attributes are stored, methods are closures from source."""
-
-    def __init__(self, pkg, rel, cls):
-        object.__setattr__(self, "_pkg", pkg)
-        object.__setattr__(self, "_rel", rel)
-        object.__setattr__(self, "_cls", cls)
-        object.__setattr__(self, "_methods", {})
-
-    def __getattr__(self, name):
-        if name.startswith("_"):
-            raise AttributeError(name)
-        pkg = object.__getattribute__(self, "_pkg")
-        rel = object.__getattribute__(self, "_rel")
-        cls = object.__getattribute__(self, "_cls")
-        ms = object.__getattribute__(self, "_methods")
-        if name not in ms:
-            key = (rel, f"{cls}.{name}")
-            if key not in pkg.repo.funcs:
-                raise AttributeError(name)
-            env = dict(pkg.env(rel))
-            env["super"] = lambda *a: _Super()
-            env["type"] = type
-            env["list"] = list
-            env["set"] = set
-            env["getattr"] = lambda o, n, d=None: getattr(o, n, d) if not n.startswith("_") else d
-            bi = BlockInterp(env, max_steps=pkg.max_steps)
-            clo = bi.make_closure(pkg.repo.funcs[key].node)
-            inst = self
-            ms[name] = lambda *a, **k: clo(inst, *a, **k)
-        return ms[name]
-
-    def _has(self, name):
-        pkg = object.__getattribute__(self, "_pkg")
-        return (object.__getattribute__(self, "_rel"), f"{object.__getattribute__(self, '_cls')}.{name}") in pkg.repo.funcs
-
-
-class _Super(Model):
-    def __init__(self, *a, **k):
-        pass
-
-    def __getattr__(self, name):
-        if name == "__init__":
-            return lambda *a, **k: None
-        raise AttributeError(name)
-
-
 class ParseError(Exception):
     def __init__(self, kind, msg):
         super().__init__(f"{kind}: {msg}")
@@ -98,17 +51,27 @@ def full_parse(pkg, text, blackboxes=(), warnings=False, error_on_warning=False)
     except LarkError as e:
         raise ParseError("SyntaxError", f"{type(e).__name__}: {str(e)[:160]}")
     rel = "parsing/verilog.py"
-    inst = Instance(pkg, rel, "_VerilogCircuitGraphTransformer")
+    from .pkgenv import RepoInstance
+
+    cls = "_VerilogCircuitGraphTransformer"
+    if (rel, cls) not in pkg.repo.classes:
+        raise AnalysisError(f"anchor vanished: class {cls}", rel)
+    env = pkg.env(rel)
+    env.setdefault("super", lambda *a: None)
+    env.setdefault("type", type)
+    inst = RepoInstance(pkg, rel, cls)
+
+    def has(name):
+        return (rel, f"{cls}.{name}") in pkg.repo.funcs
+
     try:
-        inst.__getattr__("__init__") if False else None
-        init = _bound(pkg, rel, "_VerilogCircuitGraphTransformer", "__init__", inst)
-        init(text, list(blackboxes), warnings, error_on_warning)
+        inst.__getattr__("__init__")(text, list(blackboxes), warnings, error_on_warning)
 
         def walk(node):
             if isinstance(node, Tree):
                 kids = [walk(ch) for ch in node.children]
                 name = str(node.data)
-                if inst._has(name):
+                if has(name):
                     return getattr(inst, name)(kids)
                 return Tree(node.data, kids)
             return node
@@ -121,19 +84,6 @@ def full_parse(pkg, text, blackboxes=(), warnings=False, error_on_warning=False)
     if not isinstance(res, list) or len(res) != 1 or not isinstance(res[0], RefCircuit):
         raise ParseError("BadResult", f"start did not yield exactly one circuit: {str(res)[:80]}")
     return res[0]
-
-
-def _bound(pkg, rel, cls, name, inst):
-    key = (rel, f"{cls}.{name}")
-    if key not in pkg.repo.funcs:
-        raise AnalysisError(f"anchor vanished: {cls}.{name}", rel)
-    env = dict(pkg.env(rel))
-    env["super"] = lambda *a: _Super()
-    env["type"] = type
-    env["getattr"] = lambda o, n, d=None: getattr(o, n, d) if not n.startswith("_") else d
-    bi = BlockInterp(env, max_steps=pkg.max_steps)
-    clo = bi.make_closure(pkg.repo.funcs[key].node)
-    return lambda *a, **k: clo(inst, *a, **k)
 
 
 # ---------------------------------------------------------------------------
